@@ -19,6 +19,7 @@ import (
 	"context"
 	"fmt"
 	"os"
+	"sync"
 
 	"github.com/bbva/qed/gossip"
 	"github.com/bbva/qed/log"
@@ -164,6 +165,9 @@ func (p publisherFactory) Metrics() []prometheus.Collector {
 
 var errorNoSnapshots error = fmt.Errorf("No snapshots were found on this batch!!")
 
+// publishedMu guards the check-and-remember of signatures in the agent's cache.
+var publishedMu sync.Mutex
+
 func (p publisherFactory) New(ctx context.Context) gossip.Task {
 	QedPublisherBatchesReceivedTotal.Inc()
 	p.log.Infof("PublisherFactory creating new Task!")
@@ -176,6 +180,10 @@ func (p publisherFactory) New(ctx context.Context) gossip.Task {
 
 		batch := new(protocol.BatchSnapshots)
 		batch.Snapshots = make([]*protocol.SignedSnapshot, 0)
+		// tasks of different batches run concurrently: "seen before?" and
+		// "remember it" must be one step, or two batches sharing a snapshot
+		// both forward it
+		publishedMu.Lock()
 		for _, signedSnap := range b.Snapshots {
 			_, err := a.Cache.Get(signedSnap.Signature)
 			if err != nil {
@@ -184,6 +192,7 @@ func (p publisherFactory) New(ctx context.Context) gossip.Task {
 				batch.Snapshots = append(batch.Snapshots, signedSnap)
 			}
 		}
+		publishedMu.Unlock()
 
 		if len(batch.Snapshots) < 1 {
 			return errorNoSnapshots
